@@ -243,3 +243,8 @@ class NonlinearForm(Form):
         """
         mat, vec = self._assemble(basis, x=x, **kwargs)
         return COOData(*mat), COOData(*vec)
+
+    def coo_data(self, basis, x=None, **kwargs):
+        # for backwards compatibility
+        # use NonlinearForm.elemental instead
+        return self.elemental(basis, x=x, **kwargs)
